@@ -76,6 +76,11 @@ func vcOpenFDs() map[int]string {
 		if err != nil || strings.HasPrefix(l, "/proc/") {
 			continue // the directory handle of this very listing
 		}
+		if strings.HasPrefix(l, "pipe:") {
+			// netpoll never creates pipes; the standard library's io.Copy between two TCP
+			// connections (the harness's echo peers) splices through a pooled pipe pair
+			continue
+		}
 		out[fd] = l
 	}
 	return out
